@@ -1,7 +1,7 @@
 (** C09 -- name confinement.  Statements only; proofs in Server/NameProofs.v and Server/SummaryProofs.v. *)
 From Coq Require Import NArith List String Ascii Bool.
 From P9V Require Import Base.Str gen.ConstGen gen.HandlerGen Server.State Server.Msg Server.Handlers
-  Server.Summaries Server.NameProofs Server.SummaryProofs Server.Refine.
+  Server.Summaries Server.NameProofs Server.SummaryProofs Server.Refine Server.DirsHist.
 Import ListNotations.
 Open Scope N_scope.
 
@@ -43,9 +43,28 @@ Theorem C09_walk_unsafe : forall ref names ga w,
   forallb safe_nameb names = false -> do_walk ref names ga w = (Ok (inl (eno linux_EINVAL)), w).
 Proof. exact do_walk_unsafe. Qed.
 
-(** only through directories, PER STEP of the component loop (not yet lifted to "every Walk / WalkGetAttr
-    call in the log of every history has a receiver recorded as a directory": that needs a log invariant
-    relating handles to fidRef modes; the differential checks it on every run, [c09_step] in Server/Cases.v):
+(** ONLY THROUGH DIRECTORIES, for every history: in every request of every history from NewServer, with every
+    backend answer tape (errors and panics at any call index included), the receiver File of EVERY Walk /
+    WalkGetAttr call that carries a name -- walk components of Twalk / Twalkgetattr and of the split attach
+    name, the first component included -- is the File of an allocated fidRef whose RECORDED type is a
+    directory ([dirfile]).  The recorded type is what the backend reported when the File was obtained
+    ([C09_recorded_type_is_reported] below for walked components; Tattach records GetAttr's answer; Tlcreate
+    records ModeRegular; Txattrwalk records no type, so an xattr fid is never walked from).
+    Proof: Server/DirsHist.v, an invariant over the world (state + call log) carried through every
+    primitive and handler. *)
+Theorem C09_dirs_only_every_history : forall h c m tape call ans,
+  In (call, ans) (log_of (step (NameProofs.run init_state h) c m tape)) -> named_walk call = true ->
+  dirfile (state_of (step (NameProofs.run init_state h) c m tape)) (bc_h call).
+Proof. exact dirs_only_history. Qed.
+Print Assumptions C09_dirs_only_every_history.
+(** the same from any state in which unallocated fidRef slots are empty *)
+Theorem C09_dirs_only : forall s c m tape, refs_below s ->
+  forall call ans, In (call, ans) (log_of (step s c m tape)) -> named_walk call = true ->
+    dirfile (state_of (step s c m tape)) (bc_h call).
+Proof. exact dirs_only_step. Qed.
+Print Assumptions C09_dirs_only.
+
+(** only through directories, PER STEP of the component loop (kept: it says what happens INSTEAD -- EINVAL, no call; the history theorem above says no such call is ever in a log):
     before EVERY component (the first included) the walk reference's recorded type is tested; if it is not a directory the component is not walked -- no Walk or
     WalkGetAttr call is made on it, the request fails with EINVAL (all states, all tapes) *)
 Theorem C09_dirs_only_step : forall n rest walk qids last w,
